@@ -145,6 +145,8 @@ def _attach_parent_to_exprs(obj: Class | Function | Attribute, parent: Module | 
             _attach_parent_to_expr(obj.docstring.value, parent)
         for decorator in obj.decorators:
             _attach_parent_to_expr(decorator.value, parent)
+        for base in obj.bases:
+            _attach_parent_to_expr(base, parent)
     elif isinstance(obj, Function):
         if obj.docstring:
             _attach_parent_to_expr(obj.docstring.value, parent)
@@ -158,6 +160,7 @@ def _attach_parent_to_exprs(obj: Class | Function | Attribute, parent: Module | 
         if obj.docstring:
             _attach_parent_to_expr(obj.docstring.value, parent)
         _attach_parent_to_expr(obj.value, parent)
+        _attach_parent_to_expr(obj.annotation, parent)
 
 
 def _load_module(obj_dict: dict[str, Any]) -> Module:
